@@ -13,7 +13,7 @@ AREAS_ADD = {
 
 PROPS_ADD = {
     "C15": {
-        "seed": 15, "areas": [("names", 1500), ("cleaner", 150), ("receiver", 120)], "thorough_mult": 8,
+        "seed": 15, "areas": [("names", 1500), ("cleaner", 150), ("receiver", 120), ("instance", 120)], "thorough_mult": 8,
         "assumptions": [
             "database, instance, generation names over [A-Za-z0-9-], extra items = capital letter + that alphabet (C15_roundtrip); the exact condition proved is weaker: no '.', no '__' inside a component, only the last component may end in '_' (C15_roundtrip_exact); each excluded case has a _refuted witness",
             "instants 0 <= t < 2^63 ns (1970-01-01 .. 2262-04-11T23:47:16.854775807Z), i.e. every non-negative int64 UnixNano; NameTimestampFromNano of a uint64 >= 2^63 wraps to 1677.. and is outside the claim (C15_from_nano_wrap_refuted)",
